@@ -175,48 +175,68 @@ def impWindow (s : Sig) (b : Base) (opts : List SOpt) (mtu : Nat) (c : Choices) 
   | .mtu => .ok (mtu * s.wsize)
   | .any => .ok b.window
 
+/-- `_impersonate_ip` (IPv4): the 3 flag bits -/
+def impIpFlags (s : Sig) (f : Nat) : Nat :=
+  let f1 := if s.quirks .df then setBit f 2 else clearBit f 2
+  if s.quirks .nzMbz then setBit f1 4 else clearBit f1 4
+
+/-- `_impersonate_ip` (IPv4): the identification field -/
+def impIpId (s : Sig) (b : Base) (c : Choices) : Nat :=
+  if s.quirks .df then
+    (if s.quirks .nzId then (if b.ipId == 0 then c.id else b.ipId) else 0)
+  else
+    (if s.quirks .zeroId then 0 else if b.ipId == 0 then c.id else b.ipId)
+
+/-- `_impersonate_tcp`: sequence number -/
+def impSeq (s : Sig) (b : Base) (c : Choices) : Nat :=
+  if s.quirks .zeroSeq then 0 else if b.seq == 0 then c.seq else b.seq
+
+/-- `_impersonate_tcp`: acknowledgement number -/
+def impAck (s : Sig) (b : Base) (c : Choices) : Nat :=
+  if s.quirks .nzAck then (if b.ack == 0 then c.ack else b.ack)
+  else if s.quirks .zeroAck then 0
+  else b.ack
+
+/-- `_impersonate_tcp`: urgent pointer -/
+def impUrp (s : Sig) (b : Base) (c : Choices) : Nat :=
+  if s.quirks .nzUrg then (if b.urp == 0 then c.urp else b.urp) else b.urp
+
+/-- `_impersonate_tcp`: the 9 flag bits, in the order the code adjusts them; the five quirks that matter as Booleans -/
+def impFlagsB (nzAck zeroAck nzUrg urg push : Bool) (f : Nat) : Nat :=
+  let fl1 := if nzAck then clearBit f F_ACK else if zeroAck then setBit f F_ACK else f
+  let fl2 := if nzUrg then clearBit fl1 F_URG else if urg then setBit fl1 F_URG else fl1
+  let fl3 := clearBit (clearBit (clearBit fl2 F_ECE) F_CWR) F_NS
+  if push then setBit fl3 F_PSH else clearBit fl3 F_PSH
+
+def impFlags (s : Sig) (f : Nat) : Nat :=
+  impFlagsB (s.quirks .nzAck) (s.quirks .zeroAck) (s.quirks .nzUrg) (s.quirks .urg) (s.quirks .push) f
+
+/-- `_impersonate_payload` -/
+def impPayload (s : Sig) (b : Base) (c : Choices) : List Nat :=
+  match s.payClass with
+  | none => b.payload
+  | some false => []
+  | some true => if b.payload.isEmpty then c.payload else b.payload
+
 /-- `_impersonate_ip` + `_impersonate_tcp` + `_impersonate_payload`, i.e. `impersonate(...)` after the
     signature has been obtained -/
 def impTcp (s : Sig) (b : Base) (hops : Int) (mtu : Nat) (uptime : Option Int) (c : Choices) : Except ImpErr OutPkt :=
   if s.ipVer.isSome && s.ipVer != some b.ipVer then .error .valueError
   else
-    -- IP
-    let ecnV := if s.quirks .ecn then c.ecn else 0
-    let ipFlags0 := b.ipFlags
-    let (ipFlags1, ipId) :=
-      if s.quirks .df then
-        (setBit ipFlags0 2, if s.quirks .nzId then (if b.ipId == 0 then c.id else b.ipId) else 0)
-      else
-        (clearBit ipFlags0 2, if s.quirks .zeroId then 0 else if b.ipId == 0 then c.id else b.ipId)
-    let ipFlags2 := if s.quirks .nzMbz then setBit ipFlags1 4 else clearBit ipFlags1 4
-    -- TCP
-    let seq := if s.quirks .zeroSeq then 0 else if b.seq == 0 then c.seq else b.seq
-    let (fl1, ack) :=
-      if s.quirks .nzAck then (clearBit b.flags F_ACK, if b.ack == 0 then c.ack else b.ack)
-      else if s.quirks .zeroAck then (setBit b.flags F_ACK, 0)
-      else (b.flags, b.ack)
-    let (fl2, urp) :=
-      if s.quirks .nzUrg then (clearBit fl1 F_URG, if b.urp == 0 then c.urp else b.urp)
-      else if s.quirks .urg then (setBit fl1 F_URG, b.urp)
-      else (fl1, b.urp)
-    let fl3 := clearBit (clearBit (clearBit fl2 F_ECE) F_CWR) F_NS
-    let fl4 := if s.quirks .push then setBit fl3 F_PSH else clearBit fl3 F_PSH
     let opts := impOptions s b uptime c
     match impWindow s b opts mtu c with
     | .error e => .error e
     | .ok win =>
-      let payload :=
-        match s.payClass with
-        | none => b.payload
-        | some false => []
-        | some true => if b.payload.isEmpty then c.payload else b.payload
       .ok { ipVer := b.ipVer, src := b.src, dst := b.dst, ttl := (s.ttl : Int) - hops,
-            tos := ecnV, ipId := if b.ipVer == 6 then 0 else ipId,
-            ipFlags := if b.ipVer == 6 then 0 else ipFlags2, ipFrag := if b.ipVer == 6 then 0 else b.ipFrag,
+            tos := if s.quirks .ecn then c.ecn else 0,
+            ipId := if b.ipVer == 6 then 0 else impIpId s b c,
+            ipFlags := if b.ipVer == 6 then 0 else impIpFlags s b.ipFlags,
+            ipFrag := if b.ipVer == 6 then 0 else b.ipFrag,
             ipOptLen := if b.ipVer == 6 then 0 else s.olen,
             fl := if b.ipVer == 6 then (if s.quirks .flow then c.fl else 0) else 0,
-            sport := b.sport, dport := b.dport, seq := seq, ack := ack, flags := fl4, urp := urp,
-            window := win, opts := opts, payload := payload }
+            sport := b.sport, dport := b.dport, seq := impSeq s b c, ack := impAck s b c,
+            flags := impFlags s b.flags, urp := impUrp s b c,
+            window := win, opts := opts, payload := impPayload s b c }
 
 /-! ### which choices a run draws, and from which ranges -/
 
